@@ -441,6 +441,45 @@ func TestVMSource_Async(t *testing.T) {
 			wantStdout:   "START\nSTART\nSTART\nSTART\nSTART\nSTART\nSTART\nSTART\nSTOP\nSTOP\nSTOP\nSTOP\nSTOP\nSTOP\nSTOP\nSTOP\n",
 			wantStackTop: value.Nil,
 		},
+		"catch the error of an awaited promise on the main thread": {
+			source: `
+				async def foo(a: Int): Int ! String
+					throw "boom" if a > 2
+					a
+				end
+
+				do
+					println((await foo(1)).inspect)
+					println((await foo(5)).inspect)
+				catch String() as e
+					println("caught " + e)
+				end
+				println "end"
+			`,
+			wantStdout:   "1\ncaught boom\nend\n",
+			wantStackTop: value.Nil,
+		},
+		"catch the error of an awaited promise in an async method": {
+			source: `
+				async def foo(a: Int): Int ! String
+					throw "boom" if a > 2
+					a
+				end
+				async def bar(a: Int): String
+					do
+						r := await foo(a)
+						"R " + r.inspect
+					catch String() as e
+						"E " + e
+					end
+				end
+
+				println(await bar(1))
+				println(await bar(5))
+			`,
+			wantStdout:   "R 1\nE boom\n",
+			wantStackTop: value.Nil,
+		},
 		"await a promise that throws": {
 			source: `
 				def lol: String
